@@ -79,15 +79,17 @@ def select(ctx, confs, rng):
     fams = {}
     for i, c in enumerate(confs):
         fams.setdefault(family(c), []).append(i)
-    quota = {"isolation": 60, "loop": 25, "guard": 15, "len1": 40, "len2": 40, "len3": 15, "len4": 25}
+    quota = {"isolation": 50, "loop": 25, "guard": 15, "len1": 40, "len2": 40, "len3": 15, "len4": 25}
     for f in sorted(fams):
         for i in vlib.sample(rng, fams[f], quota.get(f, 10)):
             chosen[i] = True
-    # the throttle-holding failures with sequential, parallel 1 and parallel 2 configs
+    # failures while the throttle is held (image.config / <manifest>:config on an index or a head
+    # object) followed by a script that starts with image.copy: sequential, parallel 1, parallel 2
     for i, c in enumerate(confs):
         if len(c["scripts"]) > 1:
             first = c["scripts"][0]
-            if first[-1]["op"] in ("m:config", "image.config") and len(first) == 2 and c["scripts"][-1][0]["op"].startswith("image.copy"):
+            if first[-1]["op"] in ("m:config", "image.config") and len(first) == 2 and first[0]["x"].startswith("a1") \
+                    and c["scripts"][-1][0]["op"].startswith("image.copy") and (len(c["scripts"]) == 2 or c["par"] == 2):
                 chosen[i] = True
     return [confs[i] for i in sorted(chosen)]
 
@@ -321,6 +323,10 @@ def run(ctx):
                        allow_violation=True, workers=8)
         if not leak["violated"]:
             raise vlib.ToolError("the design spec does not notice a leaked throttle slot")
+        stub = ctx.tlc("RegbotMC", "C19_mc_stub.cfg", label="model sanity: manifest.get / tag.ls answered by a stub in a dry run -> ReadSame",
+                       allow_violation=True, workers=2)
+        if stub["violated"] != "ReadSameMC":
+            raise vlib.ToolError("the design spec does not notice a read binding that answers differently in a dry run")
         if ctx.thorough:
             for cfg, label in (("C19_mc_core3.cfg", "every script <= 3 statements, core alphabet"),
                                ("C19_mc_core4.cfg", "every script <= 4 statements, core alphabet"),
@@ -365,7 +371,7 @@ def run(ctx):
     scratch = ctx.path("c19", "run", "x")
     scratch = os.path.dirname(scratch)
     res = ctx.run(["c19drv", "-regbot", os.path.join(ctx.bin, "regbot"), "-in", scn_file, "-out", out_file,
-                   "-scratch", scratch, "-workers", str(min(12, os.cpu_count() or 4))], timeout=3000)
+                   "-scratch", scratch, "-workers", str(min(24, 2 * (os.cpu_count() or 4)))], timeout=3000)
     meta = json.loads(res.stdout.strip().splitlines()[-1])
     by_id = {c["id"]: c for c in sel}
     traces = []
@@ -477,6 +483,7 @@ def run(ctx):
         "sandbox_bindings_found": bindings, "sandbox_bindings_gone": gone,
         "model_drift": drift, "model_drift_samples": drift_samples,
         "rejected": len(rejected), "strace": bool(meta.get("strace")),
+        "runs_repeated_with_long_timeout": meta.get("confirmations", 0),
         "entry_points": ["cmd/regbot once --dry-run", "cmd/regbot once", "sandbox bindings via Lua"],
     }
     assumptions = [
@@ -485,7 +492,7 @@ def run(ctx):
         "read results are compared through what the script can log (manifest/config JSON, lists, reference strings); a blob "
         "object and a manifest from a head request only as ok/error",
         "image.exportTar writing its local tar file in a dry run is recorded but is not an obligation (neither a registry nor a layout)",
-        "a blocked script is observed through the per-script timeout (4 s, confirmed with 25 s) or, without any timeout effect, "
+        "a blocked script is observed through the per-script timeout (2.5 s, confirmed with 12 s) or, without any timeout effect, "
         "through quiescence of the process; slowness can only turn into a tooling error",
     ]
     if drift:
